@@ -130,12 +130,30 @@ def plain_run(run):
 
 
 # --------------------------------------------------------------------------------------------- designs
+# a platform-like attr_translate (what e.g. the Xilinx toolchain passes to convert()); only used when the shape asks for it
+XLATE = {"keep": ("keep", "true"), "no_retiming": ("mr_ff", "true"), "async_reg": ("async_reg", "true")}
+_MULTI_ATTR = re.compile(r"^\s*\(\* [^*\n]*\", [^*\n]*\*\)\s*$", re.M)
+
+
+def multi_attribute_lines(text):
+    """how many emitted attribute lines carry two or more attributes (vacuity witness of the attrs extension)"""
+    return len(_MULTI_ATTR.findall(text))
+
+
 def render(shape):
     """Python source of the design a NamerModules shape describes; defines build() -> (top, ios)"""
     fan, depth, bind = int(shape["fan"]), int(shape["depth"]), shape["bind"]
-    L = ["from migen import *", "", "class Leaf(Module):", "    def __init__(self):", "        self.sigs = []"]
+    # audit extension: one Python set of synthesis attributes on every own / leaf signal and instance
+    attrs = [tuple(a) for a in shape.get("attrs", [])]
+    aset = ""
+    if attrs:
+        aset = "attr={%s}" % ", ".join(repr(a[0]) if len(a) == 1 else repr((a[0], a[1])) for a in attrs)
+    L = ["from migen import *", ""]
+    if shape.get("xlate"):
+        L += ["CONVERT_KW = {\"attr_translate\": %r}" % (XLATE,), ""]
+    L += ["class Leaf(Module):", "    def __init__(self):", "        self.sigs = []"]
     for a in shape["leaf"]:
-        L += ["        self.%s = Signal()" % a, "        self.sigs.append(self.%s)" % a]
+        L += ["        self.%s = Signal(%s)" % (a, aset), "        self.sigs.append(self.%s)" % a]
     L += ["        self.extra = []"]
     if shape["lov"]:
         L += ["        self.ovs = Signal(name_override=%r)" % shape["lov"], "        self.extra.append(self.ovs)"]
@@ -161,9 +179,9 @@ def render(shape):
     L += ["class Top(Module):", "    def __init__(self):", "        self.clock_domains.cd_sys = ClockDomain(\"sys\")",
           "        self.own = []", "        self.kids = []", "        self.din = Signal(8)"]
     for a in shape["top"]:
-        L += ["        self.%s = Signal()" % a, "        self.own.append(self.%s)" % a]
+        L += ["        self.%s = Signal(%s)" % (a, aset), "        self.own.append(self.%s)" % a]
     for i, o in enumerate(shape["tov"]):
-        L += ["        self.o%d = Signal(name_override=%r)" % (i, o), "        self.own.append(self.o%d)" % i]
+        L += ["        self.o%d = Signal(name_override=%r%s)" % (i, o, (", " + aset) if aset else ""), "        self.own.append(self.o%d)" % i]
     L += ["        self.sync += [s.eq(~s) for s in self.own]"]
     L += kids(child)
     for i, m in enumerate(shape["mems"]):
@@ -175,7 +193,7 @@ def render(shape):
               "        self.comb += [p.adr.eq(self.din), p.dat_w.eq(self.din), p.we.eq(self.din[0]), self.mo%d.eq(p.dat_r)]" % i]
     for i, nm in enumerate(shape["insts"]):
         L += ["        self.iy%d = Signal()" % i,
-              "        self.specials += Instance(\"PRIM\", i_a=self.din, o_y=self.iy%d%s)" % (i, (", name=%r" % nm) if nm else "")]
+              "        self.specials += Instance(\"PRIM\", i_a=self.din, o_y=self.iy%d%s)" % (i, ((", name=%r" % nm) if nm else "") + ((", " + aset) if aset else ""))]
     L += ["", "def leaves(m):", "    if isinstance(m, Leaf):", "        return [m]",
           "    return [l for k in m.kids for l in leaves(k)]", "",
           "def build():", "    top = Top()", "    ios = {top.cd_sys.clk, top.cd_sys.rst, top.din} | set(top.own)",
@@ -242,8 +260,10 @@ def corpus_source(name):
 
 
 # ------------------------------------------------------------------------------------ subprocess worker
-def _worker(inp, outp, shim):
-    """fresh interpreter: convert every design source with the real convert(); record text + name table"""
+def _worker(inp, outp, shim, off=0):
+    """fresh interpreter: convert every design source with the real convert(); record text + name table.
+    off > 0 (audit extension): `off` unrelated Signals are created before every design is built, so every DUID of
+    the design is shifted (by off, 2*off, ... for the 1st, 2nd, ... design) against the off = 0 interpreters"""
     if shim:
         from harness import py312_tracer
         py312_tracer.install()
@@ -257,8 +277,12 @@ def _worker(inp, outp, shim):
         try:
             g = {"__name__": "design"}
             exec(compile(src, "<design>", "exec"), g)
+            if off:
+                from migen import Signal as _S
+                for _ in range(off):
+                    _S()
             top, ios = g["build"]()
-            r = convert(top, set(ios), name="top")
+            r = convert(top, set(ios), name="top", **g.get("CONVERT_KW", {}))
             ns = r.ns
             table = []
             try:        # every object the namespace named during emission (public state of SignalNamespace today)
@@ -288,7 +312,8 @@ def convert_in_fresh_interpreters(sources, variants, scratch, timeout=900):
         env = dict(os.environ)
         env["PYTHONHASHSEED"] = str(v["hashseed"])
         env["PYTHONPATH"] = ROOT + os.pathsep + env.get("PYTHONPATH", "")
-        p = subprocess.Popen([sys.executable, "-m", "harness.families.namer", "worker", inp, outp, str(int(v["shim"]))],
+        p = subprocess.Popen([sys.executable, "-m", "harness.families.namer", "worker", inp, outp, str(int(v["shim"])),
+                              str(int(v.get("off", 0)))],
                              env=env, cwd=ROOT, stdout=subprocess.PIPE, stderr=subprocess.STDOUT, text=True)
         procs.append((v, outp, p))
     out = {}
@@ -313,7 +338,7 @@ class TextFormatError(Exception):
 # the two timestamp lines and the banner line with the git revision of the LiteX checkout (not part of the design:
 # it changes whenever somebody commits to the repository between two runs)
 _DATE = (re.compile(r"^// Date\s+: "), re.compile(r"^//\s+Auto-Generated by LiteX on .*\.$"), re.compile(r"^// LiteX sha1 : "))
-_PORT = re.compile(r"^    (?:input  wire|output wire|output reg |inout  wire) (?:signed)? *(?:\[\d+:0\])? *([^ ,\[\]]+?),?$")
+_PORT = re.compile(r"^    (?:input  wire|output wire|output reg |inout  wire) (?:signed)? *(?:\[\d+:0\])? *([^ ,\[\]]+?)(?: = [^,]*)?,?$")
 _NET = re.compile(r"^(?:wire|reg ) (?:signed)? *(?:\[\d+:0\])? *([^ =;\[\]]+?)(?: = [^;]*)?;$")
 _MEM = re.compile(r"^reg \[\d+:0\] ([^ =;\[\]]+?)\[0:\d+\];$")
 _MREG = re.compile(r"^reg \[\d+:0\] ([^ =;\[\]]+?);$")
@@ -429,7 +454,7 @@ def used_identifiers(text):
 
 
 if __name__ == "__main__":
-    if len(sys.argv) == 5 and sys.argv[1] == "worker":
-        _worker(sys.argv[2], sys.argv[3], int(sys.argv[4]))
+    if len(sys.argv) == 6 and sys.argv[1] == "worker":
+        _worker(sys.argv[2], sys.argv[3], int(sys.argv[4]), int(sys.argv[5]))
         sys.exit(0)
     sys.exit(2)
